@@ -1,6 +1,6 @@
 #!/bin/sh
 # tools/mutcheck.sh <patch.diff> <Cxx> [more ids]  : apply a seeded change to /repo, run the quick checks, revert
-P="$1"; shift
+P="$(realpath "$1")"; shift
 git -C /repo apply "$P" || { echo "patch does not apply"; exit 3; }
 for id in "$@"; do
   ./check "$id" > /tmp/mut_$id.log 2>&1; rc=$?
